@@ -39,7 +39,8 @@ Step ==
   /\ l' = l + 1
   /\ IF Line.act.a = "reset" THEN Reset
      ELSE IF Line.act.a = "end" THEN
-          /\ M' = MonStep(M, S.prog, [t |-> 0, inv |-> FALSE, fin |-> FALSE, st |-> Line.obs.st, ret |-> "", rv |-> -1,
+          \* a run that was given up after a timeout (hung) allows no conclusion: the end clauses are skipped
+          /\ M' = IF Line.act.hung THEN M ELSE MonStep(M, S.prog, [t |-> 0, inv |-> FALSE, fin |-> FALSE, st |-> Line.obs.st, ret |-> "", rv |-> -1,
                                       end |-> TRUE, dead |-> Line.act.dead])
           /\ last' = [a |-> "end"]
           /\ UNCHANGED <<S, SS, div>>
